@@ -16,9 +16,10 @@ from .engine import EXTRA_DECLS
 
 
 class PathVC(object):
-    __slots__ = ('pc', 'goal', 'trace', 'kind', 'result', 'note')
+    __slots__ = ('pc', 'goal', 'trace', 'kind', 'result', 'note', 'state')
 
-    def __init__(self, pc, goal, trace, kind, note=''):
+    def __init__(self, pc, goal, trace, kind, note='', state=None):
+        self.state = state
         self.pc = pc
         self.goal = goal
         self.trace = trace
@@ -168,7 +169,7 @@ class FunctionVerifier(object):
             ob = Obligation('%s#ensures[%d]' % (fid, k), src)
             for f in rets:
                 cond, extra = self.spec_in(src, f, f.value)
-                ob.vcs.append(PathVC(list(f.pc) + list(extra), cond, f.trace, 'ensures'))
+                ob.vcs.append(PathVC(list(f.pc) + list(extra), cond, f.trace, 'ensures', state=f))
             obs.append(ob)
         # raises (iff)
         declared = set(c.raises) | set(c.may_raise)
@@ -177,25 +178,25 @@ class FunctionVerifier(object):
             for f in excs:
                 if f.exc == exc_name:
                     cond, extra = self.spec_pre(src, f)
-                    ob.vcs.append(PathVC(list(f.pc) + list(extra), cond, f.trace, 'raises=>cond'))
+                    ob.vcs.append(PathVC(list(f.pc) + list(extra), cond, f.trace, 'raises=>cond', state=f))
             for f in rets:
                 cond, extra = self.spec_pre(src, f)
                 ob.vcs.append(PathVC(list(f.pc) + list(extra), Not(cond), f.trace, 'cond=>raises',
-                                     note='returned although the contract says it raises %s' % exc_name))
+                                     note='returned although the contract says it raises %s' % exc_name, state=f))
             obs.append(ob)
         for exc_name, src in c.may_raise.items():
             ob = Obligation('%s#may_raise[%s]' % (fid, exc_name), '%s only if %s' % (exc_name, src))
             for f in excs:
                 if f.exc == exc_name:
                     cond, extra = self.spec_pre(src, f)
-                    ob.vcs.append(PathVC(list(f.pc) + list(extra), cond, f.trace, 'raises=>cond'))
+                    ob.vcs.append(PathVC(list(f.pc) + list(extra), cond, f.trace, 'raises=>cond', state=f))
             obs.append(ob)
         # escaping: no other exception type may leave the function
         ob = Obligation(fid + '#escaping', 'no exception other than %s escapes' % (sorted(declared) or 'none'))
         for f in excs:
             if f.exc not in declared:
                 ob.vcs.append(PathVC(list(f.pc), FALSE, f.trace, 'escaping',
-                                     note='%s escapes (line %s)' % (f.exc, f.trace[-1][0] if f.trace else '?')))
+                                     note='%s escapes (line %s)' % (f.exc, f.trace[-1][0] if f.trace else '?'), state=f))
         obs.append(ob)
         # side obligations recorded during execution (call preconditions, loop invariants, typing)
         side = {}
